@@ -109,8 +109,9 @@ Qed.
 Example C11_ex_reopen :
   let tr := [SStart 1; SCosts 1; SSigned 1; SDone 1; SExec 1 1; SCommit 1; SReturn 1;
              SStart 2; SCosts 2; SSigned 2; SDone 2; SExec 2 2;
-             SReopen; SExec 5 1; SCommit 5; SReturn 1; SStart 3; SCosts 3; SSigned 3; SDone 3; SExec 6 3; SCommit 6] in
-  let designs := ex_designs ++ [(3, [JNum (NInt 30)])] in
+             SReopen; SExecOld 5 1; SCommit 5; SReturn 1; SNew 3 [JNum (NInt 30)]; SStart 3; SCosts 3; SSigned 3; SDone 3;
+             SExec 6 3; SCommit 6] in
+  let designs := ex_designs in
   let st := Crash.run_steps ex_obj ex_sg tr (Crash.init_state designs []) in
   Crash.legal ex_obj ex_sg (Crash.init_state designs []) tr = true /\
   keys (Crash.recovered st) = [1; 3] /\
